@@ -104,6 +104,29 @@ CLAIMS.update({
             'per run (finite domain swept completely and lifted by sweep_lift). No axioms.', '6/C20'),
 })
 
+CLAIMS.update({
+    'C03': ('executing a recurring job announces exactly the trigger answer for the execution instant; that answer is '
+            'strictly later for every trigger expression whatever was queried before; a job is started in the wake-up that '
+            'reaches its time and never earlier. PARTIAL: the closed statement (executions = occurrences in (creation, now]) '
+            'is decided by virtual-time runs of the REAL scheduler with REAL triggers over 8-14 occurrences (days to months, '
+            'DST changes, disturbing jobs) against the zoneinfo reference and the producer model in Coq',
+            SCHED_NOTE + ' ' + P_NOTE, '6/C03'),
+    'C15': ('builder_noninterference: every builder call only appends - all objects that existed before are unchanged, '
+            'whatever is called afterwards (pure model of the DSL); interval / time / sun query independence. The real '
+            'TriggerObject / FilterObject are compared with the pure values after EVERY public API call for EVERY object '
+            '(structure, no shared sub-objects, answers before/after/fresh)',
+            'Model coq/theories/Builder.v (builder DSL as a pure program over an object list) + Producers.v; tied to /repo '
+            'by random builder programs through TriggerBuilder / FilterBuilder, all objects described after every call and '
+            'compared in Coq; purity oracle with a fixed random source. No axioms.', '6/C15'),
+    'C18': ('selection logic over an astral oracle: the answer is an oracle event rounded up to the second, strictly after '
+            'dt and accepted by the filter; polar search; cache coherence preserved and answers independent of the cache; '
+            'regular oracles: every UTC day\'s event visited once in order; refutations F11 / F16 from recorded astral '
+            'numbers. PARTIAL by nature: that astral\'s instant is the astronomical event is a sampled test (labelled)',
+            'Model: the PSun part of coq/theories/Producers.v; astral is an oracle recorded per (producer, UTC date) during '
+            'the run of the REAL producers with REAL astral on a grid of locations / events / days / zones; no axioms. '
+            'Not verified: astral\'s float trigonometry.', '6/C18'),
+})
+
 checks = []
 na = []
 for p in props:
